@@ -254,6 +254,13 @@ def base_case(rng, dim, shape=None, cls=None, lm_lo=0.0, lm_hi=1.0):
             "lmtype": {g: rng.choice(["PointCloud", "PointCloud", "TriMesh", "PointUndirectedGraph"]) for g in groups}}
 
 
+def _trans_offset(rng, room):
+    """offset of a translated window with `room` whole pixels of slack: whole, quarter, three-quarter, and a hair
+    (2^-40) below / above a whole pixel - never near a rounding tie"""
+    base = rng.randint(0, max(0, room)) if rng.random() < 0.85 else rng.randint(-2, max(0, room) + 2)
+    return base + rng.choice([0.0, 0.25, 0.75, -2.0 ** -40, 2.0 ** -40, 0.375, 0.625])
+
+
 def gen_mode(rng):
     if rng.random() < 0.35:
         return ["near"]
@@ -404,7 +411,13 @@ def gen_op2(rng, name, case):
         sc = [(h - 1) / 2.0 + dy(rng, -2, 2), (w - 1) / 2.0 + dy(rng, -2, 2)]
         t = [math.floor(4 * (sc[0] - m[0][0] * tc[0] - m[0][1] * tc[1])) / 4.0,
              math.floor(4 * (sc[1] - m[1][0] * tc[0] - m[1][1] * tc[1])) / 4.0]
-        kind = rng.choice(["Affine", "Affine", "Homogeneous", "Similarity" if False else "Affine"])
+        kind = rng.choice(["Affine", "Affine", "Homogeneous", "Translation"])
+        if kind == "Translation":
+            # a pure Translation *object* (what the crop family hands to warp_to_shape) with fractional, whole and
+            # just-off-whole offsets; the window mostly inside the source, sometimes leaving it
+            th, tw = rng.randint(2, max(2, h - 1)), rng.randint(2, max(2, w - 1))
+            m = [[1.0, 0.0], [0.0, 1.0]]
+            t = [_trans_offset(rng, h - th), _trans_offset(rng, w - tw)]
         op = {"name": name, "shape": [th, tw], "matrix": m, "translation": t, "tclass": kind, "mode": gen_mode(rng)}
         if name == "warp_to_mask":
             op["tmask"] = gen_mask(rng, [th, tw])
@@ -495,7 +508,13 @@ def gen_op3(rng, name, case):
         tc = [(s - 1) / 2.0 for s in ts]
         sc = [(s - 1) / 2.0 for s in n]
         t = [math.floor(4 * (sc[r] - sum(m[r][c] * tc[c] for c in range(3)))) / 4.0 for r in range(3)]
-        return {"name": name, "shape": ts, "matrix": m, "translation": t, "tclass": "Affine", "mode": gen_mode(rng)}
+        kind = "Affine"
+        if rng.random() < 0.3:
+            kind = "Translation"
+            ts = [rng.randint(2, max(2, s - 1)) for s in n]
+            m = [[1.0 if r == c else 0.0 for c in range(3)] for r in range(3)]
+            t = [_trans_offset(rng, s - k) for s, k in zip(n, ts)]
+        return {"name": name, "shape": ts, "matrix": m, "translation": t, "tclass": kind, "mode": gen_mode(rng)}
     raise ValueError(name)
 
 
@@ -511,6 +530,8 @@ def make_transform(op, d):
     cls = op.get("tclass", "Affine")
     if cls == "Homogeneous":
         return mt.Homogeneous(hm)
+    if cls == "Translation":
+        return mt.Translation(np.array(op["translation"], dtype=float))
     return mt.Affine(hm)
 
 
